@@ -63,7 +63,7 @@ impl RunCfg {
             (_, "C14") => 12.0,
             (_, "C15") => 10.0,
             (_, "C16") => 3.0,
-            (_, "C17") => 5.0,
+            (_, "C17") => 2.5,
             (_, "C18") => 0.6,
             (_, "C20") => 8.0,
             _ => 1.0,
